@@ -151,6 +151,9 @@ def o_paste(case, T):
             hd, wd = roi_shape(info.roi_dst)
             require((hs, ws) == (rs * hd, rs * wd), "read_shrink %d: roi_src %r is not roi_dst %r scaled by it", rs, info.roi_src, info.roi_dst)
             require(sy0 % rs == 0 and sx0 % rs == 0, "read_shrink %d: roi_src %r does not start on a multiple of it", rs, info.roi_src)
+            up = lambda n: -(-n // rs) * rs  # noqa: E731
+            require(0 <= sy0 and sy1 <= up(Hs) and 0 <= sx0 and sx1 <= up(Ws), "read_shrink %d: roi_src %r reaches outside the source image %r (rounded up to the shrink factor)", rs, info.roi_src, (Hs, Ws))
+            require(0 <= dy0 and dy1 <= Hd and 0 <= dx0 and dx1 <= Wd, "roi_dst %r outside the destination %r", info.roi_dst, (Hd, Wd))
             # every destination pixel of the region reads its own rs x rs block
             for j in (dy0, dy1 - 1, (dy0 + dy1) // 2):
                 for i in (dx0, dx1 - 1, (dx0 + dx1) // 2):
